@@ -658,7 +658,7 @@ func pretty(c *parseCase) any {
 	return map[string]any{"base": c.Base, "corpus_file": src, "mutations": c.Muts, "gzip": c.Gzip, "input_len": len(d), "input": s}
 }
 
-var spec = vk.Spec[parseCase]{ID: "C02", Facet: "parse", Quick: 5000, Thorough: 40000, Gen: genCase, Check: check, Pretty: pretty, CaseTimeout: 60 * time.Second,
+var spec = vk.Spec[parseCase]{ID: "C02", Facet: "parse", Journal: true, Quick: 5000, Thorough: 40000, Gen: genCase, Check: check, Pretty: pretty, CaseTimeout: 60 * time.Second,
 	Rule: "byte strings from six bases (real encoder output of generated profiles, the harness's independent profile.proto writer, every testdata file incl. all legacy formats plus hostile legacy constants, wire-format field soups with lying length prefixes, binary CPU word streams of both word sizes/endiannesses with hostile counts and depths, raw bytes) x up to 3 structure-aware mutations (truncate, bit flip, byte set, delete/duplicate range, insert varint, replace the k-th varint of the message tree by hostile/±1/top-bit values, self-concatenation, line delete/duplicate/swap, hostile numeric tokens) x gzip wrapping before or after mutation; oracle: no panic, Parse==ParseData verdict, validity predicate V, unit-list length, and the downstream battery (Write/Copy/Compact/Merge/String/RemoveUninteresting + 12 report formats x 2 granularities) without panic; non-trivial = accepted, or rejected after format sniffing succeeded"}
 
 func TestPropParse(t *testing.T) { vk.Main(t, spec) }
